@@ -168,19 +168,34 @@ def run(ctx, only=None):
     allsc = corpus + dls + scs + rnd
     byid = {s.id: s for s in allsc}
     items = [(s.id, s.janet()) for s in allsc]
+    # quick tier: every scenario family runs in at least one clock mode, the base matrix (no dirt) in all three; thorough: everything
+    # in every mode.  When something in A-C broke, the quick tier widens to the full set as well.
+    full = (not quick) or bool(broken)
+
+    def in_mode(sc, mode):
+        if full or not sc.meta:
+            return True
+        d, n = sc.meta.get("dirt", "none"), sc.meta.get("nest", "none")
+        if mode == "normal":
+            return d != "r1"
+        if mode == "early":
+            return d == "none" and n in ("none", "try")
+        return d in ("none", "r3") and n in ("none", "try", "defer+try")
+    items = [(s.id, s.janet()) for s in allsc if in_mode(s, "normal")]
+    early_items = [(s.id, s.janet()) for s in allsc if in_mode(s, "early")]
     res = run_scenarios(hx, items, tag="n")
-    res_early = run_scenarios(hx, items, extra=["--early"], tag="e")
+    res_early = run_scenarios(hx, early_items, extra=["--early"], tag="e")
     # late-wake mode: the loop wakes 2 ms after every armed deadline, so a stale timer and the live one before it expire in
     # the same timer phase (otherwise the poll phase drops stale timers at the heap head and masks a missing check there).
     # Ticks are then not predictable: value-only oracle; scenarios whose B races its own deadline against the driver are left out
-    late_items = [(s.id, s.janet()) for s in allsc if s.meta.get("B") != "dl"]
+    late_items = [(s.id, s.janet()) for s in allsc if s.meta.get("B") != "dl" and in_mode(s, "late")]
     res_late = run_scenarios(hx, late_items, extra=["--late", "2"], tag="l")
-    evaluations = 2 * len(items) + len(late_items)
+    evaluations = len(items) + len(early_items) + len(late_items)
     # ------------------------------------------------------------------ (D) correspondence with the model
     ndiff, ncorr, diffs = 0, 0, []
     exe = ctx.driver() if (THEOREMS and HAVE_DRIVER) else None
     if exe:
-        msc = [s for s in allsc if s.model_ok()]
+        msc = [s for s in allsc if s.model_ok() and s.id in res]
         order = gen_wait.ORDER if gen_wait is not None else []
         lines = ["cfg " + " ".join("1" if (cfg is None or cfg.get(k, True)) else "0" for k in order)]
         for s in msc:
@@ -256,6 +271,8 @@ def run(ctx, only=None):
             dist["B=" + m["B"]] += 1
             dist["abandon=" + m["abandon"]] += 1
             dist["fire=" + m["fire"]] += 1
+            dist["nest=" + m.get("nest", "none")] += 1
+            dist["dirt=" + m.get("dirt", "none")] += 1
     endings = collections.Counter(r["status"] for r in res.values())
     cov = {
         "evaluations": evaluations,
@@ -263,7 +280,8 @@ def run(ctx, only=None):
         "rule": "one evaluation = one generated janet program run in the real event loop under the virtual clock (normal and "
                 "early-wake mode); non-trivial = distinct program text; matrix = every (A kind, abandon kind, fire kind, B kind)",
         "samples": [items[0][0], items[len(items) // 2][0], items[-1][0]],
-        "matrix_scenarios": len(scs), "random_scenarios": len(rnd), "deadline_scope_scenarios": len(dls), "corpus": len(corpus),
+        "matrix_scenarios": len(scs), "runs_by_clock_mode": {"normal": len(items), "early-wake": len(early_items), "late-wake": len(late_items)},
+        "random_scenarios": len(rnd), "deadline_scope_scenarios": len(dls), "corpus": len(corpus),
         "sleep_checks": sl_checked, "real_clock_sleeps": rn,
         "distribution": dict(sorted(dist.items())), "scenario_endings": dict(endings),
         "oracle_failures_by_signature": dict(counts),
